@@ -370,6 +370,8 @@ pub struct LayoutCfg {
     pub lone_cr: bool,
     pub multibyte: bool,
     pub no_sep: bool,
+    /// make line breaks (and therefore multi-line constructs) much more likely
+    pub newline_heavy: bool,
 }
 
 impl Default for LayoutCfg {
@@ -381,6 +383,7 @@ impl Default for LayoutCfg {
             lone_cr: true,
             multibyte: true,
             no_sep: true,
+            newline_heavy: false,
         }
     }
 }
@@ -425,7 +428,7 @@ pub fn newline(s: &mut Src, cfg: &LayoutCfg) -> &'static str {
 fn trivia_piece(s: &mut Src, cfg: &LayoutCfg, last_gap: bool) -> String {
     let w = [
         10u32,                                    // space
-        4,                                        // newline
+        if cfg.newline_heavy { 24 } else { 4 },   // newline
         2,                                        // tab
         if cfg.unicode_ws { 3 } else { 0 },       // unicode ws
         if cfg.comments { 3 } else { 0 },         // line comment
@@ -463,7 +466,7 @@ fn trivia_piece(s: &mut Src, cfg: &LayoutCfg, last_gap: bool) -> String {
 
 pub fn gap(s: &mut Src, cfg: &LayoutCfg, last_gap: bool) -> String {
     // number of pieces: 1 most of the time; 0 (no separator) sometimes
-    let w = [14u32, if cfg.no_sep { 3 } else { 0 }, 4, 2];
+    let w = [14u32, if cfg.no_sep { 3 } else { 0 }, if cfg.newline_heavy { 12 } else { 4 }, 2];
     match s.weighted(&w) {
         0 => " ".to_owned(),
         1 => String::new(),
